@@ -1071,7 +1071,12 @@ where
 			"Updating outputs from node".to_owned(),
 		));
 	}
-	let mut result = update_outputs(wallet_inst.clone(), keychain_mask, update_all)?;
+	let mut result = update_outputs(
+		wallet_inst.clone(),
+		keychain_mask,
+		&parent_key_id,
+		update_all,
+	)?;
 
 	if !result {
 		if let Some(ref s) = status_send_channel {
@@ -1285,6 +1290,7 @@ where
 fn update_outputs<'a, L, C, K>(
 	wallet_inst: Arc<Mutex<Box<dyn WalletInst<'a, L, C, K>>>>,
 	keychain_mask: Option<&SecretKey>,
+	parent_key_id: &Identifier,
 	update_all: bool,
 ) -> Result<bool, Error>
 where
@@ -1292,9 +1298,10 @@ where
 	C: NodeClient + 'a,
 	K: Keychain + 'a,
 {
+	// the account is the one the whole update works on, not whichever is active
+	// by the time this section gets the lock
 	wallet_lock!(wallet_inst, w);
-	let parent_key_id = w.parent_key_id();
-	match updater::refresh_outputs(&mut **w, keychain_mask, &parent_key_id, update_all) {
+	match updater::refresh_outputs(&mut **w, keychain_mask, parent_key_id, update_all) {
 		Ok(_) => Ok(true),
 		Err(e) => {
 			if let Error::InvalidKeychainMask = e {
@@ -1316,11 +1323,6 @@ where
 	C: NodeClient + 'a,
 	K: Keychain + 'a,
 {
-	let parent_key_id = {
-		wallet_lock!(wallet_inst, w);
-		w.parent_key_id()
-	};
-
 	let mut client = {
 		wallet_lock!(wallet_inst, w);
 		w.w2n_client().clone()
@@ -1347,11 +1349,26 @@ where
 			if let Some(k) = kernel {
 				debug!("Kernel Retrieved: {:?}", k);
 				wallet_lock!(wallet_inst, w);
-				let mut batch = w.batch(keychain_mask)?;
 				tx.confirmed = true;
 				tx.update_confirmation_ts();
-				batch.save_tx_log_entry(tx.clone(), &parent_key_id)?;
-				batch.commit()?;
+				// the list was made before the (unlocked) kernel lookups: update the
+				// entry as it is stored now, under the account it belongs to, and
+				// only if it is still outstanding
+				let current = updater::retrieve_txs(
+					&mut **w,
+					Some(tx.id),
+					None,
+					None,
+					Some(&tx.parent_key_id),
+					true,
+				)?;
+				if let Some(mut cur) = current.into_iter().next() {
+					cur.confirmed = true;
+					cur.confirmation_ts = tx.confirmation_ts;
+					let mut batch = w.batch(keychain_mask)?;
+					batch.save_tx_log_entry(cur, &tx.parent_key_id)?;
+					batch.commit()?;
+				}
 			}
 		} else {
 			warn!("Attempted to update via kernel excess for transaction {:?}, but kernel excess was not stored", tx.tx_slate_id);
